@@ -71,6 +71,10 @@ def core_definitions():
     # a datum removed and a new datum with the SAME name added in one step (twice)
     ds.append(("same_name_step", ["clone", "serde"], [A("payload", "Tracked"), A("k", "P4"), C(), R("payload"), A("payload", "Str"), C(),
                                                       R("payload"), A("payload", "TrackedOdd"), R("k"), C("basic")]))
+    # ... and a new datum with the same name AND the same type, landing in the very same bytes
+    ds.append(("same_name_same_type", ["clone"], [A("score", "P4"), A("label", "Str"), A("rank", "P8", True), C(),
+                                                  R("score"), A("score", "P4"), R("label"), A("label", "Str"), C(),
+                                                  R("rank"), A("rank", "P8", True), R("label"), A("label", "Str"), C("basic")]))
     # a zero-size datum is the most-aligned field of the definition (alignment marker)
     ds.append(("zst_overalign", ["clone"], [A("a", "P4"), A("b", "P2"), A("c", "Odd3"), C(), R("a"), A("marker", "ZstA8"), C(),
                                             A("t", "TrackedOdd"), C("basic")]))
